@@ -1,7 +1,9 @@
 //! C09 — relational transactions are all-or-nothing and writers exclude each other (DESIGN §4, C09).
 //!
 //! One table t(h Int, o Int); `h` carries a hash index, `o` an ordered (B-tree) index (config 1:
-//! both kinds on h, o and `_id`). 2-3 pre-existing rows sharing index keys.
+//! both kinds on h, o and `_id`). 2-3 pre-existing rows sharing index keys. Everything runs on the
+//! real RelationalEngine; sequential cases get a fresh table each (the engine itself is replaced
+//! whenever a case does not end with every transaction finished and every lock gone).
 //!
 //! Part S1 (one transaction): every script of <= L statements from a 12-letter alphabet of
 //!   tx_insert / tx_update / tx_delete, ended by commit or rollback, alone and with one
@@ -10,13 +12,19 @@
 //!   scripts over overlapping rows, every merge order of their statements and their ends.
 //! Part S3 (expiry): holder statement, virtual clock advanced by 0 / 29 s / 31 s / 61 s, second
 //!   writer. (31 s = lock timeout passed, transaction timeout not: information only.)
-//! Part T (lock-level): 2-3 real threads under vsched, every schedule with <= bound preemptions.
+//! Part T (lock-level): 2-3 real threads under vsched, every schedule with <= bound preemptions;
+//!   judged from the call results: two open transactions never both write a row, the final table
+//!   is the committed transactions' writes in some order (rolled-back ones leave nothing), indexed
+//!   reads agree with it, no lock is left, finished ids are refused.
 //!
-//! Oracle: a sequential reference table with per-transaction held rows and undo images. After every
-//!   event the slab is compared with the reference; at the end of a case every query of a battery goes
-//!   through every read strategy and must return the reference rows, every finished transaction
-//!   must be refused by every tx_* call, and no row lock may be left.
-//! Flags: --selftest (corrupted reference: must print VIOLATION), --replay <file>, --only=S1|S2|S3|T.
+//! Oracle (S): a sequential reference table with per-transaction held rows and undo images. After
+//!   every event the slab is compared with the reference; at the end of a case every query of a
+//!   battery goes through every read strategy and must return the reference rows, every finished
+//!   transaction must be refused by every tx_* call, and no row lock may be left.
+//! Information only (never a verdict): a non-transactional statement on a row an open transaction
+//!   holds; a second writer admitted after the 30 s lock timeout while the holder is still open.
+//! Flags: --selftest (corrupted reference: must print VIOLATION), --replay <file>, --only=S1|S2|S3|T,
+//!   --repro (standalone reproductions of the findings), --probe-cost.
 use nvc::{env, par, Report};
 use relational_engine::{Column, ColumnType, ColumnarScanOptions, Condition, CursorOptions, RelationalEngine, RelationalError, Row, Schema, Value};
 use serde::{Deserialize, Serialize};
@@ -620,6 +628,13 @@ fn run_case_in(e: &RelationalEngine, tn: &str, case: &Case, level: u8, selftest:
                         }
                     }
                 }
+                // beyond the transaction timeout no row may still be reported as locked
+                if advanced > TX_TIMEOUT_MS {
+                    let still: Vec<u64> = (1..m.next_id).filter(|id| e.tx_manager().is_row_locked(tn, *id)).collect();
+                    if !still.is_empty() {
+                        fail!("c09:lock:survives-timeout".to_string(), format!("after [{}]: rows {still:?} are still locked although every holder is older than the transaction timeout", hist(i)));
+                    }
+                }
                 continue;
             }
             Ev::Tx(_, s) | Ev::NonTx(s) => {
@@ -649,7 +664,7 @@ fn run_case_in(e: &RelationalEngine, tn: &str, case: &Case, level: u8, selftest:
                         Got::Ok(n) => {
                             let (row, holder, how, _) = hard[0];
                             fail!(
-                                format!("c09:exclusion:second-writer-admitted:row-{how}-by-open-tx:tx_{}", s.kind()),
+                                format!("c09:exclusion:second-writer-admitted:row-{how}-by-open-tx"),
                                 format!("after [{}]: {} returned Ok({n}) although row {row} was {how} by tx{holder}, which is still open (expected LockConflict)", hist(i), show_ev(ev))
                             );
                         }
@@ -1236,9 +1251,9 @@ fn mk_execution(p: &Program, log: &Arc<Mutex<Vec<Rec>>>, selftest: bool) -> (Vec
         let (e, ops, log, tx) = (e.clone(), ops.clone(), log.clone(), tx.clone());
         bodies.push(Box::new(move || {
             for op in &ops {
-                let call = vsched::stamp();
+                let call = vsched::stamp() + 1; // 0 is "before the threads started"
                 let got = exec_top(&e, &tx, op);
-                let ret = vsched::stamp();
+                let ret = vsched::stamp() + 1;
                 log.lock().unwrap().push(Rec { phase: 1, op: op.clone(), call, ret, got });
             }
         }));
@@ -1298,6 +1313,13 @@ fn explore_program(p: &Program, bound: usize, part: (usize, usize), selftest: bo
 }
 
 const T_SPLIT: usize = 16;
+fn program_bound(p: &Program, bound: usize) -> usize {
+    if p.threads.len() > 2 || p.threads.iter().any(|t| t.len() > 1) {
+        bound.min(2)
+    } else {
+        bound
+    }
+}
 
 fn worker(i: usize, n: usize, thorough: bool, selftest: bool, only: Option<&str>) {
     vsched::quiet_panics();
@@ -1330,8 +1352,9 @@ fn worker(i: usize, n: usize, thorough: bool, selftest: bool, only: Option<&str>
         for p in programs(thorough) {
             for part in 0..T_SPLIT {
                 if tidx % n == i {
-                    // three-thread programs stay at two preemptions (their schedule count explodes)
-                    let bound = if p.threads.len() > 2 { pl.bound.min(2) } else { pl.bound };
+                    // the full bound for two threads of one call each; longer or three-thread
+                    // programs stay at two preemptions (their schedule count explodes)
+                    let bound = program_bound(&p, pl.bound);
                     explore_program(&p, bound, (part, T_SPLIT), selftest, &mut st);
                 }
                 tidx += 1;
@@ -1456,7 +1479,7 @@ fn main() {
         rep.finish();
     }
     rep.rule(&format!(
-        "S1: every script of <= L statements over a 12-letter alphabet of tx_insert/tx_update/tx_delete (conditions through _id, the hash-indexed column, the ordered-indexed column, TRUE) ended by commit or rollback, alone and with each of 4 (length-4 scripts: 2) non-transactional statements at every position; (index config, initial rows, L) = {:?}. S2: every pair of scripts (lengths {:?}{}) of two transactions writing tagged values to overlapping rows, both ends each, every merge order of statements and ends. S3: holder statement, clock +0/29/31/61 s, second writer. T: {} programs of 2-3 real threads, every schedule with <= {} preemptions. Each case runs on a fresh real RelationalEngine; after every event the slab is compared with a sequential reference (held rows, undo images); at the end a battery of {} queries goes through select/count/select_columnar/tx_select{} and must return the reference rows, finished ids must be refused by every tx_* call, no lock may remain. non-trivial = cases in which at least one statement changed the table + schedules with >= 1 preemption",
+        "S1: every script of <= L statements over a 12-letter alphabet of tx_insert/tx_update/tx_delete (conditions through _id, the hash-indexed column, the ordered-indexed column, TRUE) ended by commit or rollback, alone and with each of 4 (length-4 scripts: 2) non-transactional statements at every position; (index config, initial rows, L) = {:?}. S2: every pair of scripts (lengths {:?}{}) of two transactions writing tagged values to overlapping rows, both ends each, every merge order of statements and ends. S3: holder statement, clock +0/29/31/61 s, second writer. T: {} programs of 2-3 real threads, every schedule with <= {} preemptions (<= 2 for three threads or two calls per thread). Each case runs on a fresh table of a real RelationalEngine (one engine per worker process, replaced whenever a case does not end with all transactions finished and all locks gone); after every event the slab is compared with a sequential reference (held rows, undo images); at the end a battery of {} queries goes through select/count/select_columnar/tx_select{} and must return the reference rows, finished ids must be refused by every tx_* call, no lock may remain. non-trivial = cases in which at least one statement changed the table + schedules with >= 1 preemption",
         pl.s1,
         pl.s2_pairs,
         if pl.s2_triples { ", and every triple of one-statement transactions" } else { "" },
@@ -1524,7 +1547,7 @@ fn main() {
     rep.add("distinct_nontrivial", t.effective_cases + preempted);
     rep.part("S", json!({"cases": t.cases, "events_executed": t.steps, "query_and_refusal_checks": t.evals, "cases_with_an_effective_statement": t.effective_cases, "lock_conflicts_observed": t.conflicts_observed, "distinct_final_tables": t.final_states.len(), "information_not_judged": t.info}));
     let single: Vec<&String> = t.outcomes.iter().filter(|(_, v)| v.len() < 2).map(|(k, _)| k).collect();
-    rep.part("T", json!({"programs": t.outcomes.len(), "preemption_bound": pl.bound, "schedules_executed": t.executions, "scheduling_points": t.sched_points, "max_points_per_execution": t.max_points, "schedules_by_preemptions": t.by_preemptions, "distinct_outcomes_per_program": t.outcomes.iter().map(|(k, v)| (k.clone(), v.len())).collect::<BTreeMap<_, _>>(), "programs_with_a_single_outcome": single, "schedules_not_judged_because_a_statement_failed_half_way": t.not_judged}));
+    rep.part("T", json!({"programs": t.outcomes.len(), "preemption_bound": pl.bound, "preemption_bound_per_program": programs(thorough).iter().map(|p| (p.name.clone(), program_bound(p, pl.bound))).collect::<BTreeMap<_, _>>(), "schedules_executed": t.executions, "scheduling_points": t.sched_points, "max_points_per_execution": t.max_points, "schedules_by_preemptions": t.by_preemptions, "distinct_outcomes_per_program": t.outcomes.iter().map(|(k, v)| (k.clone(), v.len())).collect::<BTreeMap<_, _>>(), "programs_with_a_single_outcome": single, "schedules_not_judged_because_a_statement_failed_half_way": t.not_judged}));
     rep.set("violating_cases_by_signature", json!(t.by_signature));
     if let Some(x) = t.s_sample {
         rep.sample(x);
